@@ -232,22 +232,35 @@ def check_delegation(rep, app):
     env, sr = dw.params()[1:3]
     rets = returns_of(dw)
     delegates = []
+    def source_kind(v):
+        """what a delegate callee stands for: the response dispatch() produced / the WSGI app of a caught RerouteWSGI"""
+        if isinstance(v, ast.Call) and norm(v.func) == 'self.dispatch' and len(v.args) == 1 and isinstance(v.args[0], ast.Name) and not v.keywords:
+            return 'response'
+        if isinstance(v, ast.Attribute) and v.attr == 'wsgi_app':
+            return 'reroute'
+        return None
+    dcalls = []
     for r in rets:
-        v = r.value
+        v = deref(dw, r.value) if r.value is not None else None      # ``result = response(environ, start_response); return result``
+        dcalls.append(v)
         ok = isinstance(v, ast.Call) and [norm(a) for a in v.args] == [env, sr] and not v.keywords
-        kind = None
+        kinds = set()
         if ok:
             callee = deref(dw, v.func)
-            kind = 'reroute' if isinstance(callee, ast.Attribute) and callee.attr == 'wsgi_app' else 'response'
-        delegates.append((r, kind))
+            if isinstance(callee, ast.Name) and callee.id not in dw.params():
+                # a local bound in several places (``response = self.dispatch(..)`` / ``except RerouteWSGI as e: response = e.wsgi_app``)
+                kinds = set(source_kind(x[1]) if x[2] is None else None for x in assigned_value(dw.node, callee.id))
+            else:
+                kinds = {source_kind(callee)}
+        delegates.append((r, kinds))
         rep.check('R13.a', fkey(dw, r), ok, 'returns %s(%s, %s): the delegate gets the original environ and start_response' % (norm(v.func) if ok else '?', env, sr) if ok else
-                  '_dispatch_wsgi returns %s instead of a WSGI delegate call with (%s, %s)' % (short(v), env, sr), app, r)
+                  '_dispatch_wsgi returns %s instead of a WSGI delegate call with (%s, %s)' % (short(r.value), env, sr), app, r)
     falls = cfg.exit in cfg.reach([cfg.entry], avoid=set(cfg.nodes_of_all(rets)), normal_only=True)
     rep.check('R13.a', fkey(dw, 'no fall-through'), not falls and bool(rets), 'every normal path ends in a delegate return' if not falls and rets else
               '_dispatch_wsgi can return None', app, dw.node)
     # exactly one delegate: no other call mentions start_response
     other = [c for c in walk_body(dw.node) if isinstance(c, ast.Call) and sr in [norm(a) for a in list(c.args) + [k.value for k in c.keywords]]
-             and not any(c is r.value for r in rets)]
+             and not any(c is v for v in dcalls)]
     rep.check('R13.a', fkey(dw, 'start_response passed once'), not other, 'start_response is only ever handed to the single delegate' if not other else
               'start_response is also passed to %s' % [short(c) for c in other], app, dw.node)
     # parameters never re-bound / mutated
@@ -257,16 +270,7 @@ def check_delegation(rep, app):
     rep.check('R13.a', fkey(dw, 'environ untouched'), not rebinds and not effs, 'environ / start_response are neither re-bound nor mutated' if not rebinds and not effs else
               'environ or start_response is modified before delegation: %s' % ([short(x) for x in rebinds] + [short(e.node) for e in effs]), app, dw.node)
     # response is the dispatch result; reroute comes from the caught exception
-    resp_ret = [r for r, k in delegates if k == 'response']
-    ok = bool(resp_ret)
-    for r in resp_ret:
-        f = r.value.func
-        if not isinstance(f, ast.Name):
-            ok = False
-            continue
-        srcs = assigned_value(dw.node, f.id)
-        ok = ok and len(srcs) == 1 and srcs[0][2] is None and isinstance(srcs[0][1], ast.Call) and norm(srcs[0][1].func) == 'self.dispatch' and \
-            len(srcs[0][1].args) == 1 and isinstance(srcs[0][1].args[0], ast.Name) and not srcs[0][1].keywords and f.id not in dw.params()
+    ok = any('response' in k for r, k in delegates) and all(k and k <= {'response', 'reroute'} for r, k in delegates)
     rep.check('R13.a', fkey(dw, 'response is the dispatch result'), ok, 'the delegate is the response object dispatch() produced' if ok else
               'the called response is not the result of self.dispatch(request)', app, dw.node)
     call = app.func('Application.__call__')
@@ -299,7 +303,7 @@ def check_delegation(rep, app):
               'start_response is called directly at %s' % [fi.key for _, fi, _ in calls], app)
     rep.check('R13.a', 'clastic::environ writers', not writes, 'no clastic function stores into a WSGI environ (0 found; control matched)' if not writes else
               'environ is written at %s' % [fi.key for _, fi, _ in writes], app)
-    rep.floor('R13.a', 9)
+    rep.floor('R13.a', 8)
 
 
 # ---- R13.b -----------------------------------------------------------------------------------------------------------
@@ -340,15 +344,34 @@ def check_wrap_order(rep, app):
     ai = app.func('Application.__init__')
     acfg = cfg_of(ai)
     lf, loops, site, env = find_wrap_loop(app, ai)
-    ok = len(loops) == 1 and isinstance(loops[0], ast.For)
+    if len(loops) == 1 and not isinstance(loops[0], ast.For):
+        raise AnalysisError('the middleware wrapping loop is a %s loop: its iteration order is not followed' % type(loops[0]).__name__.lower())
+
+    def resolve_src(e):
+        e = deref(lf, e)
+        if isinstance(e, ast.Name) and e.id in env:      # parameter of an extracted method: the caller's argument
+            e = deref(ai, env[e.id])
+        return e
+    ok = len(loops) == 1
     if ok:
         lp = loops[0]
-        inner = reversal_of(deref(lf, lp.iter))
+        it = resolve_src(lp.iter)
+        inner = reversal_of(it)
+        if inner is None:
+            # some other arrangement of the collected middlewares is a verdict; an iterable of unknown origin is not
+            base = it
+            while True:
+                if isinstance(base, ast.Call) and isinstance(base.func, ast.Name) and base.func.id in ('list', 'tuple', 'iter', 'sorted', 'reversed') and base.args:
+                    base = resolve_src(base.args[0])
+                elif isinstance(base, ast.Subscript) and isinstance(base.slice, ast.Slice):
+                    base = resolve_src(base.value)
+                else:
+                    break
+            if not (isinstance(base, ast.Call) and call_name(base) == '_get_all_middlewares'):
+                raise AnalysisError('the middleware wrapping loop iterates %s: not derived from the collected middlewares in a way that is followed' % short(lp.iter))
         ok = inner is not None
         if ok:
-            src = deref(lf, inner)
-            if isinstance(src, ast.Name) and src.id in env:      # parameter of an extracted method: the caller's argument
-                src = deref(ai, env[src.id])
+            src = resolve_src(inner)
             ok = isinstance(src, ast.Call) and call_name(src) == '_get_all_middlewares' and len(src.args) + len(src.keywords) == 1 and \
                 norm(argn(src, app.func('_get_all_middlewares').params()[0], 0)) == 'self.routes'
         ws = wrap_stores(lf, lp)
@@ -760,9 +783,11 @@ def check_file_handover(rep, st):
     fw = [deref(gfr, v) if v is not None else None for v in fw]
 
     def from_environ(v):
-        return isinstance(v, ast.Call) and call_tail(v) == 'get' and isinstance(v.func, ast.Attribute) and \
-            isinstance(v.func.value, ast.Attribute) and v.func.value.attr == 'environ' and v.args and \
-            isinstance(v.args[0], ast.Constant) and v.args[0].value == 'wsgi.file_wrapper'
+        if not (isinstance(v, ast.Call) and call_tail(v) == 'get' and isinstance(v.func, ast.Attribute) and v.args and
+                isinstance(v.args[0], ast.Constant) and v.args[0].value == 'wsgi.file_wrapper'):
+            return False
+        recv = deref(gfr, v.func.value)              # ``environ = request.environ``
+        return isinstance(recv, ast.Attribute) and recv.attr == 'environ'
     ok = all(v is not None and from_environ(v) for v in fw)
     rep.check('R13.c', fkey(gfr, 'wsgi.file_wrapper'), ok, 'the server\'s wsgi.file_wrapper is used when offered' if ok else
               'wsgi.file_wrapper from the environ is not honoured', st, gfr.node)
